@@ -38,6 +38,11 @@ class BestSizes(Contract):
         for signed in (None, True, False):
             for case in ('int_frac_given', 'int_word_given'):
                 yield dict(signed=signed, f=3, shape=[], case=case, bits=6)
+        # a NEGATIVE fraction length given (word inferred)
+        for signed in (None, True, False):
+            for shape in ([], [2]):
+                for gf in (-2, -5):
+                    yield dict(signed=signed, f=0, shape=shape, case='frac_given_neg', bits=8 if not shape else 6, given_frac=gf)
         # the same reconciliation through like= / resize() with a reference of the OPPOSITE signedness
         for signed in (True, False):
             for case in ('like_int_frac', 'like_int_word', 'resize_int_frac', 'resize_int_word'):
@@ -76,7 +81,7 @@ class BestSizes(Contract):
         if c in ('int_frac_given', 'like_int_frac', 'resize_int_frac'): return {'n_int': 4, 'n_frac': 2}
         if c in ('int_word_given', 'like_int_word', 'resize_int_word'): return {'n_int': 4, 'n_word': 9}
         if c == 'raw_frac_given': return {'n_frac': cfg['given_frac']}
-        if c == 'carrier_frac_given': return {'n_frac': cfg['given_frac']}
+        if c in ('carrier_frac_given', 'frac_given_neg'): return {'n_frac': cfg['given_frac']}
         if c == 'carrier_free': return {}
 
     def run(self, cfg, P, inp):
@@ -127,6 +132,8 @@ class BestSizes(Contract):
         if case.startswith('carrier_'):
             out['carrier_exact'] = And(exact, Not(B(st['inaccuracy'])))      # integers are exact at every n_frac >= 0
             case = 'free' if case == 'carrier_free' else 'frac_given'
+        if case == 'frac_given_neg':
+            case = 'frac_given'
         if case == 'raw_frac_given':
             out['raw_codes_stored'] = And(*[eq(c, M(k)) for c, k in zip(codes, inp['k'])])
             case = 'frac_given'
@@ -143,7 +150,8 @@ class BestSizes(Contract):
             cs = [scale2(c, -F) for c in codes]
             fits = P_int(cs, n_int, S)
             out['int_part_fits'] = fits
-            out['minimal_word'] = Or(n_int == 0, Not(P_int(cs, n_int - 1, S))) if n_int > 0 else True
+            ni_min = max(-F, 0)          # a negative fraction length already implies -F integer bits (the word cannot drop below the sign bit)
+            out['minimal_word'] = Or(n_int == ni_min, Not(P_int(cs, n_int - 1, S))) if n_int > ni_min else True
         elif case == 'word_given':
             out['word_as_given'] = W == gv['n_word']
             # F == min(W - s - I*, nf*): either the exact fraction length fits, or the integer part takes what it needs
